@@ -36,9 +36,10 @@ def explore(cfg, workdir, depth=None, workers=16, simulate=None, invariants=None
         rec = json.loads(body)
         h = rec["h"]
         key = (f"d{rec['s']['dev']}",) + tuple(e[0] for e in h)
-        expect[key] = (tuple(e[1] for e in h), tuple(e[2] for e in h), rec["s"], rec["v"])
+        expect[key] = (tuple(e[1] for e in h), tuple(e[2] for e in h), rec["s"], rec["v"], rec.get("r"))
 
-    inv = invariants or ("Emit", "TilingInv", "TypeOK")
+    render = getattr(cfg, "render", False)
+    inv = invariants or (("EmitR", "RenderInv") if render else ("Emit",)) + ("TilingInv", "TypeOK")
     res = run_tlc(workdir, "MC_gen", cfg.cfg_text(inv, depth), cfg.gen_module(),
                   on_line=on_line, workers=workers, simulate=simulate, timeout=timeout)
     return res, expect
@@ -62,8 +63,15 @@ def _replay_chunk(keys):
     verified = set()
     mismatches = []
     nsteps = 0
+    hookv = []
+    render = getattr(cfg, "render", False)
+    if render:
+        from .render import check_render
+    ham = getattr(cfg, "ham", False)
+    if ham:
+        from .hamcheck import check_hamiltonian
     for key in keys:
-        outs, rets, st, _ = expect[key]
+        outs, rets, st = expect[key][:3]
         dev_index = dev_of(key)
         run = Runner(cfg, dev_index)
         ctx = _ctx(cfg, dev_index)
@@ -92,13 +100,20 @@ def _replay_chunk(keys):
             elif ret != e[1][n]:
                 why = f"return {ret} vs model {e[1][n]}"
             else:
-                why = P.diff(P.project(run.seq, ctx), e[2], cfg.ptol, cfg.phase_mod, "s")
+                proj = P.project(run.seq, ctx)
+                why = P.diff(proj, e[2], cfg.ptol, cfg.phase_mod, "s")
+                if not why and render and e[4] is not None:
+                    for pred, detail in check_render(run.seq, e[4], proj):
+                        hookv.append((pred, pre, detail))
+                    if ham and e[0][n] == "ok":
+                        for pred, detail in check_hamiltonian(run.seq, e[4], proj, run.dev["nq"]):
+                            hookv.append((pred, pre, detail))
             if why:
                 mismatches.append({"h": list(pre), "at": n, "why": why,
                                    "call": cfg.calls[k - 1]})
                 break
             verified.add(pre)
-    return mismatches, nsteps, len(verified)
+    return mismatches, nsteps, len(verified), hookv
 
 
 def replay_all(cfg, expect, procs=16):
@@ -110,22 +125,23 @@ def replay_all(cfg, expect, procs=16):
     leaves = [k for k in keys if k not in has_child]
     _G["cfg"], _G["expect"] = cfg, expect
     if not leaves:
-        return [], 0, 0, 0
+        return [], 0, 0, 0, []
     n = max(1, min(procs, len(leaves) // 50 + 1))
     size = max(1, len(leaves) // (n * 8) + 1)
     chunks = [leaves[i:i + size] for i in range(0, len(leaves), size)]
-    mism, steps, comp = [], 0, 0
+    mism, steps, comp, hookv = [], 0, 0, []
     if n == 1:
         results = [_replay_chunk(c) for c in chunks]
     else:
         ctx = mp.get_context("fork")
         with ctx.Pool(n) as pool:
             results = pool.map(_replay_chunk, chunks)
-    for m, s, c in results:
+    for m, s, c, hv in results:
         mism += m
         steps += s
         comp += c
-    return mism, len(leaves), steps, comp
+        hookv += hv
+    return mism, len(leaves), steps, comp, hookv
 
 
 # --------------------------------------------------------------------------------------
